@@ -124,6 +124,9 @@ func (s *sctx) want(feat string) bool {
 	return false
 }
 
+// docFeats are the avoid-set constructs of documentation strings.
+var docFeats = []string{"doc-escape", "doc-underscore"}
+
 func docOpt(r *rand.Rand) string {
 	if r.IntN(3) != 0 {
 		return ""
@@ -134,6 +137,12 @@ func docOpt(r *rand.Rand) string {
 // doc yields an optional short documentation string, or a long one that
 // wraps when this item is to carry the doc-wraps feature.
 func (s *sctx) doc() string {
+	for k, feat := range docFeats {
+		if s.want(feat) {
+			s.placed = feat
+			return specialDoc(s.r, k+1)
+		}
+	}
 	if s.r.IntN(10) == 0 {
 		// long enough to be re-flowed at a narrow margin
 		return longDoc(s.r)
@@ -170,6 +179,30 @@ func (s *sctx) varItem() Item {
 	case s.want("var-long-float"):
 		val, kind = genValue(r, "number", "long-float-digits"), "number"
 		it.Feat = "var-long-float"
+	case s.want("var-nested-attr"):
+		// a container holding an object with attributes a literal cannot show
+		kind = fw.Pick(r, []string{"list", "vector", "array", "hash-table"})
+		if val = builtList(r); kind != "list" {
+			val = genValue(r, kind, "nested-attr")
+		}
+		it.Feat = "var-nested-attr"
+	case s.want("var-quote-value"):
+		// the value is the reader's quote object
+		val, kind = "''"+fw.Pick(r, symNames), "quote"
+		if r.IntN(3) == 0 {
+			val = "'(1 '" + fw.Pick(r, symNames) + ")"
+		}
+		it.Feat = "var-quote-value"
+	case s.want("var-vector-grown"):
+		val, kind = vecHistory(r, vecOpts{grown: true}), "vector"
+		it.Feat = "var-vector-grown"
+	case s.want("var-not-adjustable"):
+		val, kind = vecHistory(r, vecOpts{notAdj: true}), "vector"
+		it.Feat = "var-not-adjustable"
+	case r.IntN(16) == 0:
+		// the empty values
+		val = fw.Pick(r, []string{"nil", "t", "0", `""`, "'()", ":k"})
+		kind = "atom"
 	case r.IntN(20) == 0:
 		val, kind = "#()", "vector"
 	case s.want("var-lambda"):
@@ -253,6 +286,18 @@ func (s *sctx) funItem() Item {
 	name := s.name("fn-")
 	o := codeOpts{backquote: r.IntN(5) == 0, longDoc: r.IntN(10) == 0}
 	feat := ""
+	switch {
+	case s.want("fun-string-body"):
+		o, feat = codeOpts{stringBody: 2}, "fun-string-body"
+	case s.want("doc-escape"):
+		o, feat = codeOpts{specialDoc: 1}, "doc-escape"
+	case s.want("doc-underscore"):
+		o, feat = codeOpts{specialDoc: 2}, "doc-underscore"
+	case s.want("fun-case-keys"):
+		o, feat = codeOpts{caseKeys: true}, "fun-case-keys"
+	case r.IntN(25) == 0:
+		o = codeOpts{stringBody: 1}
+	}
 	fd, _ := genFunction(r, name, 2+r.IntN(2), o)
 	it := Item{Kind: "fun", Name: name, Feat: feat, Forms: []string{fd.Src}}
 	for _, p := range fd.Probes {
@@ -287,6 +332,11 @@ func (s *sctx) macroItem() Item {
 	name := s.name("mac-")
 	o := codeOpts{backquote: s.r.IntN(2) == 0, longDoc: s.r.IntN(10) == 0}
 	feat := ""
+	for k, f := range docFeats {
+		if s.want(f) {
+			o, feat = codeOpts{specialDoc: k + 1}, f
+		}
+	}
 	fd := genMacro(s.r, name, o)
 	it := Item{Kind: "macro", Name: name, Feat: feat, Forms: []string{fd.Src}}
 	for _, p := range fd.Probes {
@@ -294,6 +344,136 @@ func (s *sctx) macroItem() Item {
 	}
 	it.Probes = append(it.Probes, fmt.Sprintf("(with-output-to-string (s) (describe '%s s))", name))
 	return it
+}
+
+const (
+	nFailed  = 9
+	nRemoved = 5
+)
+
+// failedItem is a definition followed by an operation on it that fails (the
+// condition is handled): what the failed operation left behind must not
+// reach the snapshot, the world is the one before it.
+func (s *sctx) failedItem(k int) Item {
+	r := s.r
+	n := s.name("k-")
+	it := Item{Kind: "failed", Name: n}
+	if k < 0 {
+		k = r.IntN(nFailed)
+	}
+	it.Info = fmt.Sprint("failed:", k)
+	switch k {
+	case 0:
+		v := "*" + n + "*"
+		it.Name = v
+		it.Forms = []string{fmt.Sprintf("(defvar %s %d)", v, r.IntN(50)), fmt.Sprintf("(ignore-errors (setq %s (car 3)))", v)}
+		it.Probes = []string{v}
+	case 1:
+		v := "*" + n + "*"
+		it.Name = v
+		it.Forms = []string{fmt.Sprintf("(ignore-errors (defvar %s (car 3)))", v)}
+		it.Probes = []string{fmt.Sprintf("(boundp '%s)", v), v}
+	case 2:
+		it.Forms = []string{fmt.Sprintf("(defun %s (a) (+ a %d))", n, r.IntN(9)), fmt.Sprintf("(ignore-errors (defun %s \"not a lambda list\" 1))", n)}
+		it.Probes = []string{fmt.Sprintf("(%s 1)", n), fmt.Sprintf("(documentation '%s 'function)", n)}
+	case 3:
+		c := "+" + n + "+"
+		it.Name = c
+		it.Forms = []string{fmt.Sprintf("(defconstant %s %d)", c, r.IntN(50)), fmt.Sprintf("(ignore-errors (defconstant %s :other))", c), fmt.Sprintf("(ignore-errors (setq %s 99))", c)}
+		it.Probes = []string{c}
+	case 4:
+		it.Forms = []string{fmt.Sprintf("(defflavor %s ((a %d)) () :gettable-instance-variables)", n, r.IntN(50)),
+			fmt.Sprintf("(ignore-errors (defflavor %s ((b 2)) () :settable-instance-variables))", n)}
+		it.Probes = []string{fmt.Sprintf("(send (make-instance '%s) :a)", n), fmt.Sprintf("(send (make-instance '%s) :b)", n)}
+	case 5:
+		it.Forms = []string{fmt.Sprintf("(ignore-errors (defflavor %s ((a 1)) (no-such-component-%s)))", n, n)}
+		it.Probes = []string{fmt.Sprintf("(slot-value (make-instance '%s) 'a)", n)}
+	case 6:
+		// a generic function cannot take the name of an ordinary function, and
+		// a call without an applicable method fails
+		g := n + "-gf"
+		it.Forms = []string{fmt.Sprintf("(defun %s (a) (list 'plain a))", n), fmt.Sprintf("(ignore-errors (defgeneric %s (x)))", n),
+			fmt.Sprintf("(ignore-errors (defmethod %s ((x fixnum)) (list 'fix x)))", n),
+			fmt.Sprintf("(defgeneric %s (x))", g), fmt.Sprintf("(defmethod %s ((x fixnum)) (list 'fix x))", g), fmt.Sprintf("(ignore-errors (%s \"no method\"))", g)}
+		it.Probes = []string{fmt.Sprintf("(%s 3)", n), fmt.Sprintf("(%s 3)", g), fmt.Sprintf("(%s \"s\")", g)}
+	case 7:
+		v := "*" + n + "*"
+		it.Forms = []string{fmt.Sprintf("(defflavor %s ((a %d) (b nil)) () :gettable-instance-variables :settable-instance-variables)", n, r.IntN(50)),
+			fmt.Sprintf("(defvar %s (make-instance '%s))", v, n),
+			fmt.Sprintf("(ignore-errors (setf (slot-value %s 'no-such-slot) 1))", v),
+			fmt.Sprintf("(ignore-errors (send %s :set-b (car 3)))", v),
+			fmt.Sprintf("(ignore-errors (send %s :set-a))", v)}
+		it.Probes = []string{fmt.Sprintf("(list (send %s :a) (send %s :b))", v, v), fmt.Sprintf("(slot-value %s 'no-such-slot)", v)}
+	default:
+		v := "*" + n + "*"
+		it.Name = v
+		it.Forms = []string{fmt.Sprintf("(defvar %s %d)", v, r.IntN(50)), "(ignore-errors (load \"/no/such/file.lisp\"))",
+			fmt.Sprintf("(ignore-errors (let ((%s 5)) (car %s)))", v, v)}
+		it.Probes = []string{v}
+	}
+	return it
+}
+
+// removedItem is a definition that is taken back before the snapshot: it
+// must not come back with the reload.
+func (s *sctx) removedItem(k int) Item {
+	r := s.r
+	n := s.name("gone-")
+	it := Item{Kind: "removed", Name: n}
+	if k < 0 {
+		// (a removed flavor is the avoid-set construct flavor-removed)
+		if k = fw.Pick(r, []int{0, 1, 3, 4}); s.want("flavor-removed") {
+			k = 2
+			it.Feat = "flavor-removed"
+		}
+	}
+	it.Info = fmt.Sprint("removed:", k)
+	switch k {
+	case 0:
+		it.Forms = []string{fmt.Sprintf("(defun %s (a) (list a %d))", n, r.IntN(9)), fmt.Sprintf("(fmakunbound '%s)", n)}
+		it.Probes = []string{fmt.Sprintf("(fboundp '%s)", n), fmt.Sprintf("(%s 1)", n)}
+	case 1:
+		v := "*" + n + "*"
+		it.Name = v
+		it.Forms = []string{fmt.Sprintf("(defvar %s %d \"helper\")", v, r.IntN(50)), fmt.Sprintf("(makunbound '%s)", v)}
+		it.Probes = []string{fmt.Sprintf("(boundp '%s)", v), v}
+	case 2:
+		it.Forms = []string{fmt.Sprintf("(defflavor %s ((a 1)) () :gettable-instance-variables)", n), fmt.Sprintf("(undefflavor '%s)", n)}
+		it.Probes = []string{fmt.Sprintf("(send (make-instance '%s) :a)", n), fmt.Sprintf("(boundp '%s)", n), fmt.Sprintf("(null (find-flavor '%s))", n)}
+	case 3:
+		it.Forms = []string{fmt.Sprintf("(defmacro %s (a) (list 'list a a))", n), fmt.Sprintf("(fmakunbound '%s)", n)}
+		it.Probes = []string{fmt.Sprintf("(fboundp '%s)", n), fmt.Sprintf("(%s 1)", n)}
+	default:
+		// defined, removed and defined again in another way
+		it.Forms = []string{fmt.Sprintf("(defun %s (a) \"first\" (list a 1))", n), fmt.Sprintf("(fmakunbound '%s)", n), fmt.Sprintf("(defun %s (a b) (list b a))", n)}
+		it.Probes = []string{fmt.Sprintf("(%s 1 2)", n), fmt.Sprintf("(documentation '%s 'function)", n)}
+	}
+	return it
+}
+
+// refVarItem is a variable whose value is a definition of the session reached
+// by a second route: the package or the flavor object itself.
+func (s *sctx) refVarItem() (Item, bool) {
+	r := s.r
+	var expr, what string
+	switch {
+	case 0 < len(s.pkgs) && r.IntN(2) == 0:
+		what = fw.Pick(r, s.pkgs)
+		expr = fmt.Sprintf("(find-package '%s)", what)
+	case 0 < len(s.flavors):
+		what = fw.Pick(r, s.flavors)
+		expr = fmt.Sprintf("(find-flavor '%s)", what)
+	default:
+		return Item{}, false
+	}
+	v := "*" + s.name("ref-") + "*"
+	it := Item{Kind: "refvar", Name: v, Forms: []string{fmt.Sprintf("(defvar %s %s)", v, expr)}}
+	if strings.HasPrefix(expr, "(find-package") {
+		it.Probes = []string{fmt.Sprintf("(package-name %s)", v), fmt.Sprintf("(eq %s %s)", v, expr)}
+	} else {
+		it.Probes = []string{fmt.Sprintf("(flavor-name %s)", v), fmt.Sprintf("(eq %s %s)", v, expr)}
+	}
+	return it, true
 }
 
 // clvarItem changes one of the standard variables, as a session may. The
@@ -335,8 +515,24 @@ func interestingValue(r *rand.Rand, def string) string {
 		if def != "" {
 			return def
 		}
+	case 7:
+		if r.IntN(3) == 0 {
+			// the result of operations on a vector
+			return vecHistory(r, vecOpts{})
+		}
 	}
 	return genAtom(r)
+}
+
+// literalValue is interestingValue without the values a literal cannot show
+// (an instance's own load form writes slot values as literal data: avoid-set
+// construct instance-slot-attr).
+func literalValue(r *rand.Rand) string {
+	for {
+		if v := interestingValue(r, ""); !strings.HasPrefix(v, "(let ((v (make-array") {
+			return v
+		}
+	}
 }
 
 // ----- flavors
@@ -367,7 +563,6 @@ type flInfo struct {
 func (s *sctx) flavorItem(withInstance bool, role string) Item {
 	r := s.r
 	redefining := s.redefining
-	listDefault := false
 	name := s.name("fl-")
 	it := Item{Kind: "flavor", Name: name}
 	if !s.final {
@@ -379,9 +574,6 @@ func (s *sctx) flavorItem(withInstance bool, role string) Item {
 	dirtyParent := false
 	if p := s.fl[s.last]; p != nil && role != "hidden-parent" {
 		switch {
-		case s.want("flavor-list-default-parent"):
-			it.Feat = "flavor-list-default-parent"
-			parent = p
 		case !p.capable && s.want("flavor-parent"):
 			it.Feat = "flavor-parent"
 			dirtyParent = true
@@ -402,6 +594,10 @@ func (s *sctx) flavorItem(withInstance bool, role string) Item {
 	genDef := func() string {
 		switch r.IntN(5) {
 		case 0:
+			if r.IntN(4) == 0 {
+				// an explicit default that is empty
+				return fw.Pick(r, []string{"nil", "0", `""`})
+			}
 			return ""
 		case 1:
 			return litString(fw.Pick(r, words))
@@ -437,11 +633,8 @@ func (s *sctx) flavorItem(withInstance bool, role string) Item {
 		vars = []fvar{{name: fmt.Sprintf("hid%d", s.n), def: "7"}, {name: fmt.Sprintf("shown%d", s.n), def: "8"}}
 	}
 	switch {
-	case role == "list-default-parent":
-		vars[len(vars)-1].def = "'(1 2)"
-	case r.IntN(8) == 0 && role == "":
+	case r.IntN(8) == 0 && (role == "" || role == "capable"):
 		vars[len(vars)-1].def = fw.Pick(r, []string{"'(1 2)", "'sym", "'(a b)"})
-		listDefault = vars[len(vars)-1].def != "'sym"
 	case r.IntN(8) == 0 && !s.plain && role == "":
 		vars[len(vars)-1].def = "(+ 1 2)"
 	}
@@ -475,7 +668,7 @@ func (s *sctx) flavorItem(withInstance bool, role string) Item {
 		if !found {
 			info.vars = append(info.vars, v)
 		}
-		if v.def != "" && v.def[0] != '(' && v.def[0] != '\'' {
+		if v.def != "" && v.def[0] != '(' {
 			info.hist[v.name] = append(info.hist[v.name], v.def)
 		}
 	}
@@ -516,7 +709,7 @@ func (s *sctx) flavorItem(withInstance bool, role string) Item {
 		// all of its own variables, by name: the load form abbreviates this
 		// to the bare option, which on reload covers the inherited ones too
 		opts = append(opts, fmt.Sprintf("(:gettable-instance-variables %s)", names(vars)))
-	case role == "capable" || role == "list-default-parent" || (role == "" && r.IntN(2) == 0):
+	case role == "capable" || (role == "" && r.IntN(2) == 0):
 		info.capable = true
 		opts = append(opts, ":gettable-instance-variables", ":settable-instance-variables", ":inittable-instance-variables")
 		settable = vars
@@ -544,7 +737,12 @@ func (s *sctx) flavorItem(withInstance bool, role string) Item {
 		opts = append(opts, fmt.Sprintf("(:documentation %s)", litString(doc)))
 	}
 	if 0 < len(inittable) && r.IntN(4) == 0 {
-		opts = append(opts, fmt.Sprintf("(:default-init-plist (:%s %d))", inittable[0].name, r.IntN(50)))
+		// one to three keywords
+		plist := ""
+		for k, n := 0, min(len(inittable), 1+r.IntN(3)); k < n; k++ {
+			plist += fmt.Sprintf(" (:%s %d)", inittable[k].name, r.IntN(50))
+		}
+		opts = append(opts, "(:default-init-plist"+plist+")")
 	}
 	switch {
 	case withInstance || s.plain || info.capable || role != "" || dirtyParent:
@@ -659,10 +857,9 @@ func (s *sctx) flavorItem(withInstance bool, role string) Item {
 		}
 		it.Probes = append(it.Probes, fmt.Sprintf("(list %s)", strings.ReplaceAll(strings.Join(gets, " "), "slot-value i ", "slot-value "+iv+" ")))
 	}
-	if it.Feat != "" || listDefault {
+	if it.Feat != "" {
 		// a flavor carrying an avoid-set construct gets no children: their
-		// failures would be the construct's (a list default in a parent is
-		// one: the child's load form compares defaults with ==)
+		// failures would be the construct's
 		info.capable = false
 	}
 	s.flavors = append(s.flavors, name)
@@ -683,6 +880,7 @@ func (s *sctx) flavorInstanceItem() Item {
 	fl := base.Name
 	it := Item{Kind: "flavor-instance", Name: fl, Bind: true, Pre: append(append([]string{}, base.Pre...), base.Forms[0])}
 	it.Feat = base.Feat
+	slotAttr := s.want("instance-slot-attr")
 	// slot names are in the probes of the base; rebuild from the defflavor text is
 	// fragile, so set slots through slot-value on names taken from the probe
 	var slots []string
@@ -692,17 +890,20 @@ func (s *sctx) flavorInstanceItem() Item {
 	var b strings.Builder
 	fmt.Fprintf(&b, "(let ((i (make-instance '%s)))", fl)
 	for k, sn := range slots {
-		if r.IntN(3) == 0 {
+		if r.IntN(3) == 0 && !(k == 0 && slotAttr) {
 			continue
 		}
-		val := interestingValue(r, "")
+		val := literalValue(r)
 		switch r.IntN(8) {
 		case 0:
 			val = vecLit(r, 1)
 		case 1:
 			val = fw.Pick(r, []string{"'(1 2)", "'sym", "'(a \"b\")", "'(k9 (nested list) . 3)"})
 		}
-		_ = k
+		if k == 0 && slotAttr {
+			// a value with attributes a literal cannot show
+			val = attrObj(r)
+		}
 		fmt.Fprintf(&b, " (setf (slot-value i '%s) %s)", sn, val)
 	}
 	b.WriteString(" i)")
@@ -890,6 +1091,7 @@ func (s *sctx) classInstanceItem() Item {
 	r := s.r
 	s.plain = true
 	unbound := s.want("instance-slot-unbound")
+	slotAttr := s.want("instance-slot-attr")
 	s.needInitform = unbound
 	base := s.classItem(nil)
 	if unbound {
@@ -900,17 +1102,19 @@ func (s *sctx) classInstanceItem() Item {
 	var b strings.Builder
 	fmt.Fprintf(&b, "(let ((i (make-instance '%s)))", base.Name)
 	for k, sn := range slots {
-		if r.IntN(3) == 0 {
+		if r.IntN(3) == 0 && !(k == 0 && slotAttr) {
 			continue
 		}
-		val := interestingValue(r, "")
+		val := literalValue(r)
 		switch r.IntN(8) {
 		case 0:
 			val = vecLit(r, 1)
 		case 1:
 			val = fw.Pick(r, []string{"'(1 2)", "'sym", "'(a \"b\")", "'(k9 (nested list) . 3)"})
 		}
-		_ = k
+		if k == 0 && slotAttr {
+			val = attrObj(r)
+		}
 		if k == 0 && unbound {
 			// a slot with an initform made unbound again
 			fmt.Fprintf(&b, " (slot-makunbound i '%s)", sn)
@@ -1138,12 +1342,13 @@ func (s *sctx) packageItem(content string) Item {
 
 // ------------------------------------------------------------ case builders
 
-var defKinds = []string{"package", "flavor", "flavor", "flavor-instance", "class", "class", "class-instance", "generic", "generic"}
+var defKinds = []string{"package", "flavor", "flavor", "flavor-instance", "flavor-instance", "class", "class", "class-instance", "class-instance", "generic", "generic"}
 
 var defFeats = map[string][]string{
-	"flavor":         {"flavor-parent", "flavor-list-default-parent"},
-	"class":          {"class-accessor"},
-	"class-instance": {"instance-slot-unbound"},
+	"flavor":          {"flavor-parent"},
+	"class":           {"class-accessor"},
+	"class-instance":  {"instance-slot-unbound", "instance-slot-attr"},
+	"flavor-instance": {"instance-slot-attr"},
 }
 
 func genDefCase(r *rand.Rand) Case {
@@ -1165,8 +1370,6 @@ func buildDefCase(r *rand.Rand, kind, feat string) Case {
 		s.feat = ""
 		if feat == "flavor-parent" {
 			_ = s.flavorItem(false, "hidden-parent")
-		} else if feat == "flavor-list-default-parent" {
-			_ = s.flavorItem(false, "list-default-parent")
 		} else {
 			// up to two ancestors
 			for k, n := 0, r.IntN(3); k < n; k++ {
@@ -1197,7 +1400,8 @@ func buildDefCase(r *rand.Rand, kind, feat string) Case {
 }
 
 var sessionFeats = []string{
-	"class", "flavor-parent", "flavor-list-default-parent", "var-long-float", "package-var", "package-fun", "var-closure", "fun-closure",
+	"class", "flavor-parent", "var-long-float", "package-var", "package-fun", "var-closure", "fun-closure",
+	"var-nested-attr", "var-quote-value", "var-vector-grown", "var-not-adjustable", "fun-string-body", "doc-escape", "doc-underscore", "flavor-removed", "fun-case-keys",
 }
 
 func genSessionCase(r *rand.Rand) Case {
@@ -1214,7 +1418,16 @@ func buildSessionCase(r *rand.Rand, feat string, n int) Case {
 	c := Case{Mode: "session", Kind: "session", Feat: feat, Margins: []int{pickMargin(r)}}
 	for len(c.Items) < n {
 		var it Item
-		switch k := r.IntN(18); {
+		switch k := r.IntN(21); {
+		case k == 20:
+			var ok bool
+			if it, ok = s.refVarItem(); !ok {
+				continue
+			}
+		case k == 19:
+			it = s.removedItem(-1)
+		case k == 18:
+			it = s.failedItem(-1)
 		case k == 17:
 			it = s.clvarItem()
 		case k < 5:
@@ -1226,7 +1439,7 @@ func buildSessionCase(r *rand.Rand, feat string, n int) Case {
 		case k < 13:
 			it = s.redefined(s.times(), s.macroItem)
 		case k < 15:
-			if feat == "flavor-parent" || feat == "flavor-list-default-parent" {
+			if feat == "flavor-parent" {
 				continue
 			}
 			if p := s.fl[s.last]; p != nil && (!p.capable || 3 <= p.depth || r.IntN(3) == 0) {
@@ -1270,9 +1483,9 @@ func buildSessionCase(r *rand.Rand, feat string, n int) Case {
 			s.used = true
 			it = s.packageItem(feat)
 			it.Feat = feat
-		case feat == "flavor-parent" || feat == "flavor-list-default-parent":
+		case feat == "flavor-parent":
 			s.feat = ""
-			c.Items = append(c.Items, s.flavorItem(false, map[string]string{"flavor-parent": "hidden-parent", "flavor-list-default-parent": "list-default-parent"}[feat]))
+			c.Items = append(c.Items, s.flavorItem(false, "hidden-parent"))
 			s.feat = feat
 			it = s.flavorItem(false, "")
 		case strings.HasPrefix(feat, "generic-"):
@@ -1281,8 +1494,10 @@ func buildSessionCase(r *rand.Rand, feat string, n int) Case {
 			it = s.varItem()
 		case strings.HasPrefix(feat, "const-"):
 			it = s.constItem()
-		case strings.HasPrefix(feat, "fun-"):
+		case strings.HasPrefix(feat, "fun-") || strings.HasPrefix(feat, "doc-"):
 			it = s.funItem()
+		case feat == "flavor-removed":
+			it = s.removedItem(-1)
 		case strings.HasPrefix(feat, "macro-"):
 			it = s.macroItem()
 		}
